@@ -278,6 +278,41 @@ func runC11(w *World, r *Report, tier string) {
 			fa, ok := st.Addr.(*ssa.FieldAddr)
 			return ok && fieldOfAddr(fa) == fSessSM && isZeroValue(st.Val)
 		}
+		// … or the same thing field by field: every field of the state receives its zero value on the path
+		zeroesEveryField := func(path []ssa.Instruction) bool {
+			stT, ok := fSessSM.Type().Underlying().(*types.Struct)
+			if !ok {
+				return false
+			}
+			done := map[string]bool{}
+			forPath(path, func(i int, in ssa.Instruction) {
+				st, ok := in.(*ssa.Store)
+				if !ok {
+					return
+				}
+				fa, ok := st.Addr.(*ssa.FieldAddr)
+				if !ok {
+					return
+				}
+				outer, ok := fa.X.(*ssa.FieldAddr)
+				if !ok || fieldOfAddr(outer) != fSessSM {
+					return
+				}
+				v := st.Val
+				if rv := resolveOn(v, i, path); rv != nil {
+					v = rv
+				}
+				if f := fieldOfAddr(fa); f != nil {
+					done[f.Name()] = isZeroValue(v)
+				}
+			})
+			for i := 0; i < stT.NumFields(); i++ {
+				if !done[stT.Field(i).Name()] {
+					return false
+				}
+			}
+			return true
+		}
 		nTrue, nOther := 0, 0
 		bad3, bad4 := "", ""
 		// before the reply has been read nothing can have been resumed: every return on the way there says false
@@ -311,7 +346,7 @@ func runC11(w *World, r *Report, tier string) {
 			b, isC := boolConst(resolveOn(rres(path, ret)[0], len(path)-1, path))
 			if isC && !b {
 				nOther++
-				if countOn(path, isZeroStateStore) == 0 {
+				if countOn(path, isZeroStateStore) == 0 && !zeroesEveryField(path) {
 					bad3 = "a path that does not report a successful resumption keeps the stale SM state: ends at " + w.ipos(last)
 				}
 				return
@@ -506,10 +541,15 @@ func runC11(w *World, r *Report, tier string) {
 		}
 		n6++
 		cons := fmt.Sprintf("%s#store:SMState.Id#%d", w.funcKey(a.Fn), n6)
-		T, fp := typeAssertSource(a.Val, nil)
-		okP := T != nil && w.typeStr(T) == "stanza.SMEnabled" && fp == "Id"
-		if s, isS := stringConst(a.Val); isS && s == "" {
-			okP = true
+		// (a helper with several callers: the argument of each)
+		okP := true
+		for _, v := range originsAll(a.Val) {
+			T, fp := typeAssertSource(v, nil)
+			okV := T != nil && w.typeStr(T) == "stanza.SMEnabled" && fp == "Id"
+			if s, isS := stringConst(v); isS && s == "" {
+				okV = true
+			}
+			okP = okP && okV
 		}
 		r.Check(okP, "R6", cons, w.ipos(a.Instr), "the resumption id is set from something other than the id of <enabled/>: "+describe(w, a.Val), "from SMEnabled.Id")
 	}
